@@ -187,9 +187,13 @@ func (aw *AsyncWorker) dealWithGroupedContexts(resID string, phaseCtxs []phaseTw
 	res := val.(*DBResource)
 	conn, err := res.db.Conn(context.Background())
 	if err != nil {
+		// no connection for now: the requests go back into the queue. (Going on without one panicked further
+		// down, which also cost the other resources' requests of the same batch their turn, for good.)
 		for i := range phaseCtxs {
+			aw.rePutBackToQueue.Add(1)
 			aw.requeue(phaseCtxs[i])
 		}
+		return
 	}
 
 	defer conn.Close()
